@@ -368,9 +368,9 @@ func CheckC15(r *core.Run) {
 			}
 		}
 		gen.Cleanup()
-		r.Extra["transitions_"+part] = len(paths)
+		r.SetExtra("transitions_"+part, len(paths))
 		paths = maximalPaths(paths)
-		r.Extra["replayed_paths_"+part] = len(paths)
+		r.SetExtra("replayed_paths_"+part, len(paths))
 		out := make([]*core.Trace, len(paths))
 		var wg sync.WaitGroup
 		sem := make(chan struct{}, 12)
